@@ -182,7 +182,7 @@ def run(chk):
             # block-boundary grain counts (trace validation of the rate kernel at those sizes; F as above)
             for sc in MT.block_scenarios(np.random.default_rng([chk.seed, 0xB10C]), chk.tier, regimes=(4, 6, 0),
                                          sizes=(64, 128, 129, 1024) if chk.tier == "quick" else None):
-                F0 = random_F0(rng)
+                F0 = random_F0(np.random.default_rng([chk.seed, 0xB10C, sc["n"]]))   # own stream: `rng` is undisturbed
                 h = c01.run_history(rec, sc, F0=F0)
                 c01.validate_traces(chk, h, bad)
                 fails = [f for f in h["fails"]]
